@@ -112,7 +112,7 @@ def run(tier: str) -> int:
         progs.append((f"logictypes:{k}", "\n".join(lines) + "\n", False))
     vecs = [{}, {"inline_functions": False}, {"remove_labels": True}, {"inline_functions": False, "use_push_pop_functions": True, "remove_labels": True}]
     items = [dict(name=n_, sources=s, lenient=l, vectors=vecs if tier == "thorough" or i % 4 == 0 else vecs[:2]) for i, (n_, s, l) in enumerate(progs)]
-    results = harness.pmap(task, items)
+    results = harness.pmap(task, items, placeholder=lambda it, st, d: dict(name=it["name"], status=st, detail=d, problems=[], tokens=0, symbolic_tokens=0))
     nontrivial = 0
     for spec, r in zip(items, results):
         if r["status"] == "harness_error":
